@@ -30,6 +30,7 @@ HandleFields == {c \in {"obs", "flat", "sweep", "count"} : c \in Components}
                   \cup (IF "path" \in Components THEN {"path", "isroot"} ELSE {})
                   \cup (IF "kind" \in Components THEN {"isdict", "isarr"} ELSE {})
                   \cup (IF "at" \in Components THEN {"at"} ELSE {})
+                  \cup (IF "up" \in Components THEN {"up"} ELSE {})
 \* the spec's projection restricted to the compared components
 SelSpec(p) == [h   |-> [i \in DOMAIN p.h |-> [c \in HandleFields |-> p.h[i][c]]],
                cmp |-> IF "cmp" \in Components THEN p.cmp ELSE <<>>]
@@ -38,6 +39,7 @@ SelRec(p) ==
   [h   |-> [i \in DOMAIN p.h |->
               [c \in HandleFields |->
                  IF c = "flat" THEN ToSet(p.h[i].flat)
+                 ELSE IF c = "up" THEN ToSet(p.h[i].up)
                  ELSE IF c = "at" THEN [j \in DOMAIN p.h[i].at |-> ToSet(p.h[i].at[j])]
                  ELSE p.h[i][c]]],
    cmp |-> IF "cmp" \in Components
@@ -85,8 +87,8 @@ Report == l = NEv + 1 =>
   PrintT(<<"REPORT", ToJson([n |-> NEv, nviol |-> nviol, known |-> known, bad |-> bad, sessions |-> sessions])>>)
 Accepted == TLCGet("stats").diameter = NEv + 1
 
-CompsAll == {"obs", "sweep", "count", "kind", "at", "path", "flat", "cmp"}
+CompsAll == {"obs", "sweep", "count", "kind", "at", "path", "flat", "cmp", "up"}
 CompsC12 == {"obs", "sweep", "count", "kind", "at"}
-CompsC15 == {"obs", "path", "flat", "cmp"}
-CompsC10 == {"obs", "at", "path"}
+CompsC15 == {"obs", "path", "flat", "cmp", "up"}
+CompsC10 == {"obs", "at", "path", "up"}
 ==========================================================================
